@@ -251,6 +251,7 @@ fn main() {
         t
     };
     let cx = Ctx { run: &run, distinct: &distinct };
+    let merge_mismatches = std::sync::atomic::AtomicU64::new(0);
     let stats = bfs(
         ops.len(),
         depth,
@@ -280,10 +281,22 @@ fn main() {
                 Some((canon, obs))
             })
         },
-        |a, b| {
-            run.machinery_error(format!("canonicalisation mismatch between histories {a:?} and {b:?}"));
+        |_a, _b| {
+            // two histories that leave the same stored entries but answer differently: the answers are then not a
+            // function of the table content, which the exactness clause reports on its own; a mismatch WITHOUT any
+            // clause violation would mean the canonical form is wrong (machinery error, decided after the search)
+            merge_mismatches.fetch_add(1, std::sync::atomic::Ordering::Relaxed);
         },
     );
+
+    let mm = merge_mismatches.load(std::sync::atomic::Ordering::Relaxed);
+    if mm > 0 {
+        if run.violation_count() == 0 {
+            run.machinery_error(format!("{mm} canonicalisation mismatches without any clause violation"));
+        } else {
+            run.info_n("merge-mismatches (equal stored entries, different answers)", mm);
+        }
+    }
 
     // ---- family B: bucket occupancy vectors -------------------------------------------------
     // bucket b (0..=4) holds 0, 1 or 8 peers (thorough: also 7), ids taken from the low or high end of the bucket.
